@@ -429,45 +429,49 @@ func childBackend(r *vrt.Run) error {
 		return err
 	}
 	var nTx, nRange int
+	var o offsets
 	fmt.Sscan(os.Getenv("VERIF_C03_NTX"), &nTx)
 	fmt.Sscan(os.Getenv("VERIF_C03_NRANGE"), &nRange)
-	lines := evalAll(r, cases, nTx, nRange, false)
+	fmt.Sscan(os.Getenv("VERIF_C03_OFFSETS"), &o.b, &o.tx, &o.rg)
+	lines := evalAll(r, cases, o, nTx, nRange, false)
 	return os.WriteFile(os.Getenv("VERIF_C03_OUT"), []byte(strings.Join(lines, "\n")+"\n"), 0o644)
 }
 
 // evalAll produces the comparable output lines of this build: one per backend case, one per
 // transaction-level case (summary of every output), in a fixed order.
-func evalAll(r *vrt.Run, cases []bcase, nTx, nRange int, judge bool) []string {
+func evalAll(r *vrt.Run, cases []bcase, o offsets, nTx, nRange int, judge bool) []string {
 	lines := make([]string, len(cases)+nTx+nRange)
 	vrt.Par(len(cases), 0, func(i int) {
 		if judge {
-			r.Case("backend case #%d %s %s %s %s", i, cases[i].kind, hx(cases[i].a), hx(cases[i].b), hx(cases[i].c))
+			r.Case("backend case #%d %s %s %s %s", o.b+i, cases[i].kind, hx(cases[i].a), hx(cases[i].b), hx(cases[i].c))
 		}
-		lines[i] = fmt.Sprintf("B%d %s", i, strings.Join(evalCase(cases[i]), " "))
+		lines[i] = fmt.Sprintf("B%d %s", o.b+i, strings.Join(evalCase(cases[i]), " "))
 	})
 	vrt.Par(nTx, 0, func(i int) {
+		idx := o.tx + i
 		if judge {
-			r.Case("tx case #%d", i)
+			r.Case("tx case #%d", idx)
 		}
 		var s string
 		if judge {
-			r.Guard("tx", map[string]any{"case": i}, func() { s = txCase(r, i, true) })
+			r.Guard("tx", map[string]any{"case": idx}, func() { s = txCase(r, idx, true) })
 		} else {
-			s = txCase(r, i, false)
+			s = txCase(r, idx, false)
 		}
-		lines[len(cases)+i] = fmt.Sprintf("T%d %s", i, s)
+		lines[len(cases)+i] = fmt.Sprintf("T%d %s", idx, s)
 	})
 	vrt.Par(nRange, 0, func(i int) {
+		idx := o.rg + i
 		if judge {
-			r.Case("range case #%d", i)
+			r.Case("range case #%d", idx)
 		}
 		var s string
 		if judge {
-			r.Guard("range", map[string]any{"case": i}, func() { s = rangeCase(r, i, true) })
+			r.Guard("range", map[string]any{"case": idx}, func() { s = rangeCase(r, idx, true) })
 		} else {
-			s = rangeCase(r, i, false)
+			s = rangeCase(r, idx, false)
 		}
-		lines[len(cases)+nTx+i] = fmt.Sprintf("R%d %s", i, s)
+		lines[len(cases)+nTx+i] = fmt.Sprintf("R%d %s", idx, s)
 	})
 	return lines
 }
@@ -494,10 +498,10 @@ func siblingBinary() (string, error) {
 }
 
 // runSibling executes the nocgo build in child mode.
-func runSibling(r *vrt.Run, bin, corpus, out string, nTx, nRange int, watchdog time.Duration) error {
+func runSibling(r *vrt.Run, bin, corpus, out string, o offsets, nTx, nRange int, watchdog time.Duration) error {
 	cmd := exec.Command(bin)
 	cmd.Env = append(os.Environ(), "VERIF_CHILD=backend", "VERIF_OUT=", "VERIF_CASEFILE=",
-		"VERIF_C03_CORPUS="+corpus, "VERIF_C03_OUT="+out, fmt.Sprintf("VERIF_C03_NTX=%d", nTx), fmt.Sprintf("VERIF_C03_NRANGE=%d", nRange))
+		"VERIF_C03_CORPUS="+corpus, "VERIF_C03_OUT="+out, fmt.Sprintf("VERIF_C03_NTX=%d", nTx), fmt.Sprintf("VERIF_C03_NRANGE=%d", nRange), fmt.Sprintf("VERIF_C03_OFFSETS=%d %d %d", o.b, o.tx, o.rg))
 	var buf bytes.Buffer
 	cmd.Stdout, cmd.Stderr = &buf, &buf
 	cmd.SysProcAttr = &syscall.SysProcAttr{Setpgid: true}
